@@ -47,7 +47,8 @@ def run_plan(plan_data, keep_events=True):
     scenario = plan_data["scenario"]
     harness.install(suite_path=scenario.get("suite_path"), home=scenario.get("home"))
     sim = harness.Sim(plan, scenario)
-    logs_dir = tempfile.mkdtemp(prefix="travsim-logs-", dir=scratch_root())
+    from travsim import gensuite
+    logs_dir = tempfile.mkdtemp(prefix=f"travsim-logs-{gensuite.run_id()}-", dir=scratch_root())
     endings = []
     try:
         epochs = scenario.get("epochs") or [{}]
